@@ -433,7 +433,9 @@ def number_sinks():
 # within 1.0 CPU second each (the unchanged tree needs milliseconds); R2 between consecutive sizes as for strings.
 STRUCTURE_SIZES = {"composeinfo-chain": [2, 4, 6, 8, 10, 12, 14, 16, 20, 24, 32], "treeinfo-chain": [2, 4, 6, 8, 10, 12, 14, 16, 20, 24, 32],
                    "composeinfo-siblings": [4, 16, 64, 128], "composeinfo-two-levels": [2, 4, 8, 12], "images-one-cell": [4, 16, 64], "rpms-0.3-packages": [4, 16, 64, 128],
-                   "treeinfo-siblings": [4, 16, 64]}
+                   "treeinfo-siblings": [4, 16, 64],
+                   # values that LOOK like references to other options of the file (the syntax some INI readers expand): nine levels, k references each
+                   "treeinfo-percent-references": [1, 2, 3, 4, 5, 6, 8]}
 R3_LIMIT, R3_CHARS = 1.0, 20000
 
 
@@ -465,6 +467,13 @@ def structured_document(kind, n):
     if kind.startswith("treeinfo"):
         lines = ["[header]", "type = productmd.treeinfo", "version = 1.2", "", "[release]", "name = F", "short = F", "version = 22", "",
                  "[tree]", "arch = x86_64", "build_timestamp = 1", "platforms = x86_64"]
+        if kind == "treeinfo-percent-references":
+            lines[lines.index("name = F")] = "name = " + "%(n1)s" * n
+            at = lines.index("short = F")
+            for level in range(1, 10):
+                lines.insert(at, "n%d = %s" % (level, ("%%(n%d)s" % (level + 1)) * n if level < 9 else "x"))
+            lines += ["variants = V0", "", "[variant-V0]", "id = V0", "uid = V0", "name = %(id)s%(id)s", "type = variant", "packages = %(repository)s", "repository = r", ""]
+            return "treeinfo", "\n".join(lines) + "\n"
         if kind == "treeinfo-chain":
             lines += ["variants = A", ""]
             uid = "A"
